@@ -455,6 +455,29 @@ fn trace_counting(
     non_root_list: &mut LinkedList,
     queue: &mut LinkedQueue,
 ) {
+    /// Tracing an object increments the tracing counter of its children, also of those which are still waiting
+    /// inside possible_cycles. If a Trace::trace call panics, these objects remain in possible_cycles with a non-zero
+    /// tracing counter, while the loop below assumes it to be zero when an object is popped. Reset them while unwinding.
+    /// When trace_counting returns normally possible_cycles is empty and this guard does nothing.
+    struct ResetTracingCountersGuard<'a> {
+        possible_cycles: &'a PossibleCycles,
+    }
+
+    impl<'a> Drop for ResetTracingCountersGuard<'a> {
+        #[inline]
+        fn drop(&mut self) {
+            let mut next = self.possible_cycles.first();
+            while let Some(ptr) = next {
+                unsafe {
+                    ptr.as_ref().counter_marker().reset_tracing_counter();
+                    next = *ptr.as_ref().get_next();
+                }
+            }
+        }
+    }
+
+    let _reset_guard = ResetTracingCountersGuard { possible_cycles };
+
     while let Some(ptr) = possible_cycles.remove_first() {
         // The tracing counter has already been reset by add_to_list(...)
         __trace_counting(ptr, root_list, non_root_list, queue);
